@@ -24,7 +24,7 @@ CONFIG = {
         "objective values are integers (the harness feeds integer-valued f64 in -9..9, sums are exact, no -0.0 arises); f64 rounding, NaN and -0.0 ordering (total_cmp) are not modelled",
         "Config is modelled as the list of decided literals (order has no counterpart in the var-indexed vector); the BiHashMap candidate_idx_mapping is modelled by the list of inserted index tuples (distinct tuples give distinct configurations below a decomposable And)",
         "which of several equally good candidates BinaryHeap::pop returns is a parameter of the model (theorems hold for every choice); the correspondence compares top-k VALUE sequences, the configurations are judged by the truth-table oracle and compared with the model only when all model values are pairwise distinct; calc_best_config is compared exactly (value and configuration)",
-        "k <= usize::MAX and assumptions within 1..n (hypotheses of the theorems); C01 input space: exhaustive functions over 1..3 (quick) / 1..4 strided (thorough) features plus random CNFs, plus And nodes over 63/64/70 or-triangles in the debug and the release profile",
+        "k <= usize::MAX and assumptions within 1..n (hypotheses of the theorems); C01 input space: exhaustive functions over 1..3 (quick) / 1..4 (thorough) features plus random CNFs, plus And nodes over 63/64/70 or-triangles in the debug and the release profile",
         "the 63/64/70-feature cases have no truth table: necessary-condition oracle (models containing A, distinct, sorted, correct values, size against the model count, one-flip neighbours) plus equality with the model",
     ],
 }
